@@ -53,4 +53,8 @@ IsPrefix(a, b) == Len(a) <= Len(b) /\ SubSeq(b, 1, Len(a)) = a
 NothingLostOrInvented == IsPrefix(delivered, sent)
 Expected(c) == LET F[i \in 0..Len(c)] == IF i = 0 THEN <<>> ELSE F[i - 1] \o Wire(c, i) IN F[Len(c)]
 CarrierIndependent == r = Len(conv) + 1 => delivered = Expected(conv) /\ outcomes = [i \in 1..Len(conv) |-> Outcome(conv[i].resp)]
+
+\* Channel implements Pipe
+PipeOfChannel == INSTANCE Pipe WITH sent <- sent, delivered <- delivered
+ImplementsPipe == PipeOfChannel!Spec
 =============================================================================
